@@ -4,13 +4,27 @@ both cast modes, non-integers, strings of length 0/1/2 and non-ASCII, booleans, 
 
 Case / outcome: as in suite `expr` with ctx = ["const", type]; the definition is `<type> X = <initializer>` and the
 observed value is `Constant.value` of the returned model (must equal the initializer exactly) or the rejection.
-Oracle: the declarative rule of C12 on plain Python integers / Fractions (`expr.o_const`).
+Oracle: the declarative rule of C12 on plain Python integers / Fractions (`expr.o_const`); for string initialisers the
+rule is applied to the code points as written (`o_const12`): one character below U+0080, nothing "equivalent" to one.
+
+Character family (`gen_char_case`): one-character initialisers drawn per CLASS from the whole of Unicode - ASCII (controls,
+quotes, DEL), Latin-1, characters that some text transformation (NFC / NFD / NFKC / NFKD, lower / upper / title / case
+folding; classes computed from `unicodedata`, nothing is listed by hand) maps to one ASCII character or to ASCII text,
+non-ASCII digits, lone surrogates, astral characters, an ASCII character followed by a combining mark or a
+default-ignorable character, the empty string and two characters - written raw or with any escape form, as a plain literal,
+concatenated with '' on either side or taken out of a one-element set, for every integer width around 8 and the other types.
+Second route (`soft_ctor`): the value the initialiser denotes (computed by the harness) is handed to the public
+constructors `Constant(<Type>(width, cast mode), "X", String / Rational / Boolean / Set)`; the same rule must hold there.
 """
 from __future__ import annotations
 
+import functools
 import random
+import typing
+import unicodedata
 from fractions import Fraction
 
+import common
 from suites import expr as X
 
 
@@ -108,12 +122,163 @@ def gen_init(ty, rng: random.Random) -> list:
     return ["bin", "eq", X.lit_int(1, rng), X.lit_int(rng.choice([1, 2]), rng)]
 
 
+# ------------------------------------------------------------------------------------------------ character initialisers
+#
+# The rule of C12 for strings speaks about the initialiser as written: exactly one character, below U+0080.  Anything that
+# merely LOOKS like, normalises to, folds to or encodes to one ASCII character is something else.  The classes below are
+# computed from the interpreter's Unicode database, so that every such transformation is represented by its own members.
+
+_SCAN = [(0x80, 0x33000), (0xE0000, 0xE0200)]  # the planes that hold characters (3..13 are unassigned, 15/16 private use)
+
+_TRANSFORMS: typing.List[typing.Tuple[str, typing.Callable[[str], str]]] = [
+    ("nfc", lambda c: unicodedata.normalize("NFC", c)),
+    ("nfd", lambda c: unicodedata.normalize("NFD", c)),
+    ("nfkc", lambda c: unicodedata.normalize("NFKC", c)),
+    ("nfkd", lambda c: unicodedata.normalize("NFKD", c)),
+    ("lower", str.lower),
+    ("upper", str.upper),
+    ("title", str.title),
+    ("casefold", str.casefold),
+]
+
+
+@functools.lru_cache(maxsize=None)
+def char_classes() -> typing.Dict[str, typing.List[int]]:
+    """Code points from U+0080 on, by what relates them to ASCII: `<transformation>:1` - the transformation yields ONE
+    ASCII character, `<transformation>:n` - it yields ASCII text of another length; `digit` - a decimal digit of another
+    script (int() and str.isdigit() accept it); `mark` - combining; `format` - default-ignorable / format characters."""
+    out: typing.Dict[str, typing.List[int]] = {}
+    for lo, hi in _SCAN:
+        for cp in range(lo, hi):
+            if 0xD800 <= cp <= 0xDFFF:
+                continue
+            ch = chr(cp)
+            for name, f in _TRANSFORMS:
+                t = f(ch)
+                if t and t != ch and t.isascii():
+                    out.setdefault("%s:%s" % (name, "1" if len(t) == 1 else "n"), []).append(cp)
+            if ch.isdecimal():
+                out.setdefault("digit", []).append(cp)
+            if unicodedata.combining(ch):
+                out.setdefault("mark", []).append(cp)
+            elif unicodedata.category(ch) == "Cf":
+                out.setdefault("format", []).append(cp)
+    return out
+
+
+def char_class_of(cps: typing.List[int]) -> str:
+    """Feature label of a string initialiser (for the evidence)."""
+    if len(cps) != 1:
+        return "len%d" % min(len(cps), 3) + ("" if all(c < 128 for c in cps) else "+non-ascii")
+    c = cps[0]
+    if c < 128:
+        return "ascii" + (":control" if c < 32 or c == 127 else "")
+    if 0xD800 <= c <= 0xDFFF:
+        return "surrogate"
+    ch = chr(c)
+    hits = [name for name, f in _TRANSFORMS if len(f(ch)) == 1 and f(ch).isascii()]
+    if hits:
+        return "ascii-under:" + hits[0]
+    return "latin1" if c < 0x100 else "bmp" if c < 0x10000 else "astral"
+
+
+def gen_chars(rng: random.Random) -> typing.List[int]:
+    """The code points of a string initialiser: one class first, then a member of it."""
+    cc = char_classes()
+    x = rng.random()
+    if x < 0.22:
+        return [rng.choice([rng.randrange(128), rng.randrange(128), rng.choice([0, 9, 10, 13, 31, 32, 34, 39, 48, 75, 92, 96, 126, 127])])]
+    if x < 0.62:   # one character that some transformation turns into ASCII: every transformation equally often
+        name = rng.choice(sorted(cc))
+        return [rng.choice(cc[name])]
+    if x < 0.70:
+        return [rng.choice([rng.randrange(0x80, 0x100), rng.randrange(0x100, 0xD800), rng.randrange(0xE000, 0x10000), 0x80, 0xFF, 0x100, 0x7FF, 0x800, 0xFFFD, 0xFFFE])]
+    if x < 0.76:
+        return [rng.choice([rng.randrange(0x10000, 0x110000), 0x10000, 0x10FFFF, 0x1F600, 0x1004B, 0x1D40A, 0xE004B])]
+    if x < 0.81:
+        return [rng.choice([0xD800, 0xDBFF, 0xDC00, 0xDFFF, rng.randrange(0xD800, 0xE000)])]
+    if x < 0.90:   # an ASCII character with something invisible or combining next to it
+        a = rng.choice([75, 59, 96, 65, 97, 48, 32, rng.randrange(32, 127)])
+        b = rng.choice(cc[rng.choice(["mark", "format"])])
+        return [a, b] if rng.random() < 0.75 else [b, a]
+    if x < 0.94:
+        return []
+    return [rng.randrange(32, 127), rng.choice([rng.randrange(32, 127), 0, 0x4B, rng.choice(cc["nfkc:1"])])]
+
+
+def char_literal(rng: random.Random, cps: typing.List[int], mode: typing.Optional[str] = None) -> list:
+    """A string literal for the code points, every character written in the chosen way (`raw`, `u`, `U`, `simple`, `mix`)
+    wherever that way exists for it."""
+    q = rng.choice(["'", '"'])
+    mode = mode or rng.choice(["raw", "raw", "u", "U", "simple", "mix", "mix"])
+    text = q
+    for c in cps:
+        ch = chr(c)
+        m = rng.choice(["raw", "u", "U", "simple"]) if mode == "mix" else mode
+        simple = [k for k, v in X.ESCAPES.items() if v == c]
+        must_escape = ch in (q, "\\", "\r", "\n") or c < 0x20 and ch != "\t" or 0xD800 <= c <= 0xDFFF or c in (0x7F, 0x80, 0xFFFF)
+        if m == "simple" and not simple:
+            m = "raw"
+        if m == "raw" and must_escape:
+            m = "simple" if simple and rng.random() < 0.5 else "u"
+        if m == "u" and c > 0xFFFF:
+            m = "U"
+        if m == "raw":
+            text += ch
+        elif m == "simple":
+            text += "\\" + rng.choice(simple)
+        else:
+            h = ("%04x" if m == "u" else "%08x") % c
+            text += "\\" + m + "".join(x.upper() if rng.random() < 0.5 else x for x in h)
+    return ["str", text + q, list(cps)]
+
+
+NEAR_8 = [["uint", 7], ["uint", 9], ["uint", 1], ["uint", 2], ["uint", 6], ["uint", 10], ["uint", 16], ["uint", 24], ["uint", 32], ["uint", 64],
+          ["int", 8], ["int", 8], ["int", 9], ["int", 7], ["int", 16], ["int", 2], ["int", 64]]
+
+
+def gen_char_type(rng: random.Random) -> list:
+    x = rng.random()
+    if x < 0.55:
+        m = rng.choice(["sat", "trunc"])
+        return ["uint", 8, m, ("truncated " if m == "trunc" else rng.choice(["", "saturated "])) + "uint8"]
+    if x < 0.85:
+        k, n = rng.choice(NEAR_8)
+        m = rng.choice(["sat", "trunc"]) if k == "uint" else "sat"
+        return [k, n, m, ("truncated " if m == "trunc" else rng.choice(["", "saturated "])) + "%s%d" % (k, n)]
+    return gen_type(rng)
+
+
+def gen_char_tree(rng: random.Random) -> list:
+    cps = gen_chars(rng)
+    lit = char_literal(rng, cps)
+    x = rng.random()
+    if x < 0.64:
+        return lit
+    empty = char_literal(rng, [])
+    if x < 0.76:
+        return ["bin", "add", lit, empty]
+    if x < 0.84:
+        return ["bin", "add", empty, lit]
+    if x < 0.94:   # out of a one-element set
+        return ["attr", ["set", [lit]], rng.choice(["min", "max"])]
+    return ["attr", ["set", [lit, char_literal(rng, cps)]], rng.choice(["min", "max"])]   # the same text twice, spelled twice
+
+
+CHAR_SHARE = 0.2
+
+
 def gen_case(rng: random.Random) -> dict:
     for _ in range(50):
-        ty = gen_type(rng)
-        tree = gen_init(ty, rng)
-        case = {"tree": tree, "env": [], "ctx": ["const", ty]}
-        status, _ = X.o_case(case)
+        fam = "char" if rng.random() < CHAR_SHARE else "general"
+        if fam == "char":
+            ty = gen_char_type(rng)
+            tree = gen_char_tree(rng)
+        else:
+            ty = gen_type(rng)
+            tree = gen_init(ty, rng)
+        case = {"tree": tree, "env": [], "ctx": ["const", ty], "fam": fam}
+        status, _ = o_case12(case)
         if status == "skip":
             continue
         style = rng.random()
@@ -123,6 +288,106 @@ def gen_case(rng: random.Random) -> dict:
             case["text"], case["style"] = X.render(tree, rng, 0.3, rng.choice([0.0, 0.5])), "redundant"
         return case
     raise RuntimeError("generator stuck")
+
+
+# ------------------------------------------------------------------------------------------------ oracle of C12
+
+
+def o_const12(ty, v):
+    """The rule of C12: the stored value, or Invalid.  A string is judged by its code points as written: accepted only
+    if it is ONE character below U+0080 and the type is an 8-bit unsigned integer (stored: the code point).  The only
+    indeterminate situation is a string taken out of a set in which two different spellings of one text met (the
+    Specification identifies them, so either may come out) while one of them is a single ASCII character."""
+    if X.ty_wf(ty) and ty[0] in ("uint", "int") and X.kind_of(v) == "str":
+        raw = v.raw
+        if v.amb and len(X.nfc(raw)) == 1 and ord(X.nfc(raw)) < 128:
+            raise X.Skip("two canonically equivalent spellings met in a set, one of them is one ASCII character")
+        if ty[0] == "uint" and ty[1] == 8 and len(raw) == 1 and ord(raw) < 128:
+            return Fraction(ord(raw))
+        raise X.Invalid("string constant: only one ASCII character is admissible, and only for uint8")
+    return X.o_const(ty, v)
+
+
+def o_value12(case):
+    """The value the initialiser denotes (may raise Invalid / Skip)."""
+    if case.get("env"):
+        raise X.Skip("environment")
+    return X.o_eval(case["tree"], {})
+
+
+def o_case12(case) -> typing.Tuple[str, typing.Any]:
+    """('v', canonical stored value) | ('invalid', why) | ('skip', why)"""
+    try:
+        ty = case["ctx"][1]
+        if not X.ty_wf(ty):
+            raise X.Invalid("type parameters")
+        return "v", X.canon(o_const12(ty, o_value12(case)))
+    except X.Invalid as ex:
+        return "invalid", str(ex)
+    except X.Skip as ex:
+        return "skip", str(ex)
+
+
+def _ambiguous(v) -> bool:
+    if isinstance(v, X.OStr):
+        return v.amb
+    return isinstance(v, frozenset) and any(_ambiguous(x) for x in v)
+
+
+def ctor_observe(case) -> typing.Optional[dict]:
+    """Second route: the public constructors.  The value of the initialiser is computed by the harness and handed over as
+    String / Rational / Boolean / Set; the type is built from its parameters."""
+    ty = case["ctx"][1]
+    if ty[0] == "other":
+        return None
+    try:
+        v = o_value12(case)
+    except (X.Invalid, X.Skip):
+        return None
+    if _ambiguous(v):
+        return None
+    pydsdl = common.import_pydsdl()
+
+    def mk(x):
+        k = X.kind_of(x)
+        if k == "bool":
+            return pydsdl.Boolean(x)
+        if k == "rat":
+            return pydsdl.Rational(x)
+        if k == "str":
+            return pydsdl.String(x.raw)
+        return pydsdl.Set([mk(e) for e in x])
+
+    try:
+        if ty[0] == "bool":
+            t = pydsdl.BooleanType()
+        else:
+            cm = pydsdl.PrimitiveType.CastMode.SATURATED if ty[2] == "sat" else pydsdl.PrimitiveType.CastMode.TRUNCATED
+            t = {"uint": pydsdl.UnsignedIntegerType, "int": pydsdl.SignedIntegerType, "float": pydsdl.FloatType}[ty[0]](ty[1], cm)
+        c = pydsdl.Constant(t, "X", mk(v))
+        return {"v": X.canon_raw(X.from_expression_value(pydsdl, c.value))}
+    except Exception as ex:  # noqa
+        out = X.classify_exception(pydsdl, ex, None)
+        out.pop("soft_path_ok", None)
+        return out
+
+
+def judge(status, val, obs: dict, what: str, text: str) -> typing.Optional[str]:
+    """The C12 verdict on one observation (front end or constructors)."""
+    err = obs.get("err")
+    if err is not None and err != "invalid":
+        return "%s %r: %s (%s) instead of a value or an InvalidDefinitionError" % (what, text, err, obs.get("soft_msg", ""))
+    if status == "invalid":
+        if err != "invalid":
+            return "%s %r (const) must be rejected (%s), the library produced %s" % (what, text, val, X._short(obs.get("v")))
+        if obs.get("soft_path_ok") is False:
+            return "%s %r rejected without the path of its file" % (what, text)
+        return None
+    if err == "invalid":
+        return "%s %r (const) has the value %s, the library rejected it (%s)" % (what, text, X._short(val), obs.get("soft_exc"))
+    if obs.get("v") != val:   # a stored constant is a boolean or a rational: compared as delivered
+        return "%s %r (const): library value %s, mathematical value %s" % (what, text, X._short(obs.get("v")), X._short(val))
+    return None
 
 
 def exhaustive_boundaries():
@@ -155,6 +420,41 @@ class ConstSuite(X.ExprSuite):
     def corpus(self, prop):
         return exhaustive_boundaries()
 
+    def run_impl(self, case):
+        out = super().run_impl(case)
+        try:
+            c = ctor_observe(case)
+            if c is not None:
+                out["soft_ctor"] = c   # not compared with the model (which predicts the front end); judged by the oracle
+        except Exception as ex:  # harness-side problem: visible, never a crash
+            out["soft_ctor"] = {"err": "harness:" + type(ex).__name__, "soft_msg": str(ex)[:300]}
+        return out
+
+    def oracle(self, case, impl, prop):
+        status, val = o_case12(case)
+        if status == "skip":
+            return None
+        ty = case["ctx"][1]
+        v = judge(status, val, impl, "expression", case["text"])
+        if v is None and impl.get("soft_ctor") is not None:
+            v = judge(status, val, impl["soft_ctor"], "constructors: Constant(%s, 'X', value of" % ty[-1], case["text"])
+        return v
+
+    def compare(self, case, impl, model, prop):
+        # The model keeps the NORMAL FORM of a string as the representative of a set element (lean/Model/Expr.lean, normSc;
+        # no operator of the expression language tells spellings apart), the ASCII test of a constant does tell them apart:
+        # a string that comes out of a set in another spelling than its normal form is judged by the oracle alone.
+        strs = [t for t in X.walk(case["tree"]) if t[0] == "str" and t[2] is not None]
+        if any(t[0] == "set" for t in X.walk(case["tree"])) and any(X.nfc(X._s(t[2])) != X._s(t[2]) for t in strs
+                                                                  if not any(0xD800 <= c <= 0xDFFF for c in t[2])):
+            return None
+        return super().compare(case, impl, model, prop)
+
+    def shrink(self, case):
+        for c in super().shrink(case):
+            if c["ctx"][0] == "const":   # the property is about constants: the context stays
+                yield c
+
     def features(self, case, impl):
         ty = case["ctx"][1]
         yield "type:" + ty[0] + (":" + ty[2] if len(ty) > 3 else "")
@@ -164,7 +464,15 @@ class ConstSuite(X.ExprSuite):
         yield "outcome:" + ("accepted" if "v" in impl else str(impl.get("err")))
         if impl.get("soft_exc"):
             yield "rejected-as:" + impl["soft_exc"]
-        status, val = X.o_case(case)
+        if case.get("fam"):
+            yield "family:" + case["fam"]
+        for t in X.walk(case["tree"]):
+            if t[0] == "str" and t[2] is not None:
+                yield "string:" + char_class_of(t[2]) + ("/uint8" if ty[0] == "uint" and ty[1] == 8 else "/other-type")
+                yield "string-spelling:" + ("escaped" if "\\" in t[1] else "raw")
+        if impl.get("soft_ctor") is not None:
+            yield "route:constructors:" + ("accepted" if "v" in impl["soft_ctor"] else str(impl["soft_ctor"].get("err")))
+        status, val = o_case12(case)
         if status == "v" and ty[0] in ("uint", "int") and val[0] == "r":
             n = ty[1]
             lo, hi = (0, 2 ** n - 1) if ty[0] == "uint" else (-(2 ** (n - 1)), 2 ** (n - 1) - 1)
